@@ -417,6 +417,7 @@ var classToRule = map[string]classRule{
 	"err-undeclared": {"C07-3t", "err only in functions with an error result"},
 	"tail":           {"C07-6", "bare return at the end"},
 	"slice":          {"C16-1", "slice copy shape"},
+	"assign":         {"C02-2", "simple assignment writes LHS and reads RHS"},
 	"comment":        {"C05-5", "skip / no match rendering"},
 }
 
@@ -751,6 +752,38 @@ func sliceAndCommentShape(m member, j judged) []string {
 			if !okShape {
 				fail("slice", "loop form must be `for i, e := range %s { %s[i] = e | Cast(e) }`", w.rhs, w.lhs)
 			}
+		}
+	}
+	// simple assignments: `<dst expr> [, err] = <src expr>` present exactly once each
+	var simples [][2]string
+	var collectS func(a asg, dst, src, tag string)
+	collectS = func(a asg, dst, src, tag string) {
+		switch a.kind {
+		case "model.SimpleField":
+			rhs := src + ".F" + tag
+			if a.err {
+				rhs = "conv(" + rhs + ")"
+			}
+			simples = append(simples, [2]string{dst + ".F" + tag, rhs})
+		case "model.NestStruct":
+			for i, cc := range a.contents {
+				collectS(cc, dst+".N"+tag, src+".N"+tag, fmt.Sprintf("%d", i))
+			}
+		}
+	}
+	for i, a := range m.asgs {
+		collectS(a, "dst", m.h.srcName(), fmt.Sprintf("%d", i))
+	}
+	for _, sp := range simples {
+		n := 0
+		ast.Inspect(j.fd.Body, func(nd ast.Node) bool {
+			if as, ok := nd.(*ast.AssignStmt); ok && len(as.Rhs) == 1 && exprText(as.Lhs[0]) == sp[0] && exprText(as.Rhs[0]) == sp[1] && as.Tok == token.ASSIGN {
+				n++
+			}
+			return true
+		})
+		if n != 1 {
+			fail("assign", "expected exactly one statement `%s = %s`, found %d", sp[0], sp[1], n)
 		}
 	}
 	// comments: each expected line appears exactly once as a whole comment line
